@@ -181,6 +181,12 @@ def guard_rules(repo, res, rule="GUARD"):
             if ok:
                 a = arm[-1][0]
                 guard_ok = a["guard"] is not None and A.resolve(a["guard"], env5.get(id(a["body"])) or A.fn_env(f5))[0] == "param"
+                if not guard_ok and a["guard"] is None:
+                    # the same mode test as an early `if !within_subword { return Ok(()) }` standing in the arm before the check
+                    for kind, cnd, st in A.preceding_guards(s, pm5):
+                        if kind == "if" and A.before(a["body"], st) and cnd["k"] == "Unary" and cnd.get("op") == "!" and \
+                                A.resolve(cnd["expr"], env5.get(id(cnd)) or env5.get(id(st["expr"])) or A.fn_env(f5))[0] == "param":
+                            guard_ok = True
                 vs = [P.last(v[0]) for v in A.pat_variants(a["pat"])]
                 it = A.resolve(loops[0][0]["iter"], env5.get(id(loops[0][0])))
                 win = it[0] == "mcall" and it[1] == "windows" and it[3] and it[3][0] == ("lit", "2") and P.has_bind_root("Sequence", "children")(it[2])
